@@ -42,12 +42,13 @@ PROPS["C01"] = {
             "below half of the peak size, AND a removal of a node with two children followed by a lookup. Distinct = "
             "distinct canonical JSON of the case (64-bit hash), unioned over shards. "
             "Macro op prune: remove every key (or every other key) that is not on the path from the root to a deepest leaf, so the size shrinks while the height stays. "
-            "ELEMENT KINDS: about half of the cases instantiate the tree with the struct type Key; the others use int, string, an 88-byte comparable struct, *Cell (a new pointer per call, deeply equal pointees), any holding *Cell, or []byte. Elements are converted at the API boundary while the reference stays in ints. Where the kind carries an identity, the element held must be the very one supplied by the successful Add or latest Replace (a Get after each checks it). Probes (Get/Remove/Cursor arguments) are equivalent but not identical elements. For int and string, half of the cases use a comparison that is the reverse of the type's natural order.",
+            "ELEMENT KINDS: about half of the cases instantiate the tree with the struct type Key; the others use int, string, an 88-byte comparable struct, *Cell (a new pointer per call, deeply equal pointees), any holding *Cell, or []byte. Elements are converted at the API boundary while the reference stays in ints. Where the kind carries an identity, the element held must be the very one supplied by the successful Add or latest Replace (a Get after each checks it). Probes (Get/Remove/Cursor arguments) are equivalent but not identical elements. For int and string, half of the cases use a comparison that is the reverse of the type's natural order. "
+            "Iterations are also nested: a second InorderAfter / Inorder is started inside the loop body of an InorderAfter (run to its end or abandoned) and both must list what they list alone.",
     "assumptions": COMMON_ASSUME + ["the comparator is a valid total preorder on one struct key type"],
 }
 
 PROPS["C02"] = {
-    "legs": [rapid("bound", "pstree", "TestC02Bound", 8, 1500, 16, 400000),
+    "legs": [rapid("bound", "pstree", "TestC02Bound", 8, 1500, 16, 150000),
              plain("newheight", "pstree", "TestC02NewHeights")],
     "rule": "leg bound: histories as in C01 plus an adaptive adversary op that inserts a fresh key directly beneath a "
             "deepest leaf (located by a cursor walk; through Add or Replace); beta in [0,999]; trees up to 2000 nodes; after EVERY single "
@@ -75,14 +76,16 @@ PROPS["C03"] = {
             "cursors tracked against the reconstructed shape, both cursors observed after every move (clone "
             "independence); (e) nil and invalidated cursors are no-ops yielding the zero key. NON-TRIVIAL iff the tree "
             "has height >= 4 and some node's successor is a proper ancestor >= 2 levels up. Distinct = hash of the case JSON. "
-            "Element kinds as in C01; cursor probes carry a different identity from the stored key.",
+            "Element kinds as in C01; cursor probes carry a different identity from the stored key. "
+            "Cursor.Inorder is also started again from inside its own loop body (two reads of one cursor).",
     "assumptions": COMMON_ASSUME,
 }
 
 PROPS["C04"] = {
     "legs": [rapid("hist", "pstree", "TestC04Hist", 4, 4000, 16, 800000),
              rapid("float", "pstree", "TestC04Float", 2, 2000, 8, 300000),
-             rapid("str", "pstree", "TestC04Str", 2, 3000, 8, 300000)],
+             rapid("str", "pstree", "TestC04Str", 2, 3000, 8, 300000),
+             plain("deep", "pstree", "TestC04Deep")],
     "rule": "histories of <=50(+9) ops on two copies of one omap.Map value (ops alternate between the copies): "
             "Set/Delete/Clear/Get/GetOK on present, absent-below, absent-above and absent-inside keys; iterator "
             "programmes First/Last/Seek(k)/Iter.Seek(k) followed by Next/Prev walks, the documented "
@@ -98,7 +101,8 @@ PROPS["C04"] = {
             "a reference ordered by cmp.Compare (NaN equals itself and sorts first, -0 equals +0); non-trivial = a NaN key "
             "was used in a history of >=4 ops. Distinct = hash of the case JSON. "
             "leg str: omap.Map[string,string] (New or NewFunc(strings.Compare), started from the zero Map in a quarter of the cases) over 20 hostile strings as keys AND values ('', ' ', ' a', 'a ', tab, 'b\\n', invalid UTF-8, CR, VT ...): Set/Delete/Get/GetOK/Seek/Last+Prev walk/Clear, and after every step Len, Keys, the First..Next iteration and String() == 'omap[' + the k:v pairs separated by one space + ']'; on the zero Map only the operations its documentation lists. NON-TRIVIAL (leg str) iff at some step the first key or the last value is empty or has outer white space. "
-            "ELEMENT KINDS: leg hist also instantiates the key type with int, string, int16, an 88-byte struct, *Cell, any and []byte, using omap.New for the ordered ones when the comparison is the natural one and NewFunc otherwise; half of those cases put their keys at the ends of the key type's range (MinInt.., around 0, ..MaxInt, so that differences overflow). Value types: int, string, *Cell, *Label (pointer-receiver String method) and a struct that is both fmt.Formatter and fmt.Stringer; Sets sometimes store the zero value (nil pointer, empty string, 0) and sometimes a new value equal to the one held. Values are compared by identity where the kind has one, and String() must equal the %v:%v rendering of the same keys and values (a panic in String is a violation).",
+            "ELEMENT KINDS: leg hist also instantiates the key type with int, string, int16, an 88-byte struct, *Cell, any and []byte, using omap.New for the ordered ones when the comparison is the natural one and NewFunc otherwise; half of those cases put their keys at the ends of the key type's range (MinInt.., around 0, ..MaxInt, so that differences overflow). Value types: int, string, *Cell, *Label (pointer-receiver String method) and a struct that is both fmt.Formatter and fmt.Stringer; Sets sometimes store the zero value (nil pointer, empty string, 0) and sometimes a new value equal to the one held. Values are compared by identity where the kind has one, and String() must equal the %v:%v rendering of the same keys and values (a panic in String is a violation). "
+            "leg deep: ONE map of 3.46 million int keys inserted in ascending order (thorough: also descending, 6 M, 1 M) - search paths of 33 nodes at omap's fixed balance factor; Seek of the key just inserted after each of the last 300 000 Sets, then GetOK / Seek / Next on the last, first and a spread of keys, First and Last.",
     "assumptions": COMMON_ASSUME + ["under the k/2 comparator only comparator-equivalence of reported keys is required, not which representative is stored"],
 }
 
@@ -126,12 +130,14 @@ PROPS["C05"] = {
             "8 (quick) / 11 (thorough), both directions: output sorted and a permutation by identity; non-trivial = "
             "length>=4 with duplicates. Distinct = hash of the case JSON (rapid legs) / distinct by construction (sortx). "
             "Value vectors for Set / NewWithData / Sort are independent values (half of the cases) or ordered along the parent links (i-1)/2 (already a heap), along the wrong links i/2, sorted, or constant, each in either direction. "
-            "ELEMENT KINDS (the library is generic, so the property must hold for every instantiation; a change that special-cases a type through a type switch, reflect, unsafe.Sizeof, DeepEqual or fmt is only visible this way): half of the cases run the queue / Sort on the harness's own (value,id) struct; the rest instantiate Queue[T] and Sort[T] with int (no identity: conservation as a multiset of values), string, an 88-byte comparable struct, fresh *Cell pointers (every Add/Set supplies a NEW pointer, also for a value already held; op setSame re-Sets the current values slot by slot), []byte, and any holding *Cell. The reference model stays in ints, 'held' means the very element handed in (Kit.Same), class elem=<kind>. The exhaustive Sort leg runs every sequence on the own struct plus one further kind cycling with the case index.",
+            "ELEMENT KINDS (the library is generic, so the property must hold for every instantiation; a change that special-cases a type through a type switch, reflect, unsafe.Sizeof, DeepEqual or fmt is only visible this way): half of the cases run the queue / Sort on the harness's own (value,id) struct; the rest instantiate Queue[T] and Sort[T] with int (no identity: conservation as a multiset of values), string, an 88-byte comparable struct, fresh *Cell pointers (every Add/Set supplies a NEW pointer, also for a value already held; op setSame re-Sets the current values slot by slot), []byte, and any holding *Cell. The reference model stays in ints, 'held' means the very element handed in (Kit.Same), class elem=<kind>. The exhaustive Sort leg runs every sequence on the own struct plus one further kind cycling with the case index. "
+            "The each op also starts a second Each inside the callback of the first.",
     "assumptions": COMMON_ASSUME + ["a defect whose symptoms coincide with a deviation model of F1/F2 on every generated history would be filed under the known finding"],
 }
 
 PROPS["C06"] = {
-    "legs": [rapid("pos", "pheap", "TestC06Pos", 4, 5000, 16, 120000)],
+    "legs": [rapid("pos", "pheap", "TestC06Pos", 4, 5000, 16, 120000),
+             plain("bigpos", "pheap", "TestC06BigPos")],
     "rule": "histories as C05 (mode G) with an update callback installed that records the last reported position per "
             "element id; extra ops: removeElem (Remove at the recorded position of a chosen tracked element must return "
             "exactly that element), Update(nil)/re-install phases (after removal of the callback no call may arrive; "
@@ -140,7 +146,8 @@ PROPS["C06"] = {
             "new element. Elements loaded by NewWithData are exempt until first reported. NON-TRIVIAL iff an element "
             "that had moved >=2 times was removed through its recorded position. Order failures met on the way are "
             "routed through the C05 triage. Distinct = hash of the case JSON. "
-            "Element kinds as C05. For kind int, which has no identities, the clause is checked by position: the last report naming each live position must name the value found there, Add's return and Set's reports likewise, and removeElem goes through a reported position; such cases are never counted non-trivial.",
+            "Element kinds as C05. For kind int, which has no identities, the clause is checked by position: the last report naming each live position must name the value found there, Add's return and Set's reports likewise, and removeElem goes through a reported position; such cases are never counted non-trivial. "
+            "leg bigpos: heaps of 3 M and 2^21+5 distinct ints (thorough: up to 2^24) with an update function: Set(0..N-1) in ascending or descending order, then Pops (sinks across 21+ levels); after every operation the last reported position of EVERY element must be its offset in Each and Pop must return the minimum (only Set and Pop are used: they never take the paths of known findings F1/F2).",
     "assumptions": COMMON_ASSUME,
 }
 
@@ -164,7 +171,8 @@ PROPS["C07"] = {
             "for each NewSize(n), n in 0..4, same comparison after every step; distinct by construction; non-trivial by the "
             "same shadow rule. "
             "One peek in twenty uses an offset at the ends of the int range (math.MinInt, MinInt+1, MaxInt, MaxInt-Len, +-2^31, +-2^32). "
-            "ELEMENT KINDS (the library is generic, so the property must hold for every instantiation; a change that special-cases a type through a type switch, reflect, unsafe.Sizeof, DeepEqual or fmt is only visible this way): half of the hist cases run Queue[int]; the others instantiate the queue with string, int16, uint8, an 88-byte struct, *Cell (new pointer per element, about half of the pointees deeply equal), []byte (fresh backing array, four contents) or any holding *Cell. Serial numbers are converted at the API boundary, and every comparison demands the very element that was supplied (==, same pointer, same backing array, content intact) and the zero value of the type on empty. The 'fill exactly' prefix and the labelling shadow use the capacities append really produces for that element type. Leg exh stays exhaustive for Queue[int] up to L and re-runs every case up to L-1 with one of the seven other kinds, cycling by case index.",
+            "ELEMENT KINDS (the library is generic, so the property must hold for every instantiation; a change that special-cases a type through a type switch, reflect, unsafe.Sizeof, DeepEqual or fmt is only visible this way): half of the hist cases run Queue[int]; the others instantiate the queue with string, int16, uint8, an 88-byte struct, *Cell (new pointer per element, about half of the pointees deeply equal), []byte (fresh backing array, four contents) or any holding *Cell. Serial numbers are converted at the API boundary, and every comparison demands the very element that was supplied (==, same pointer, same backing array, content intact) and the zero value of the type on empty. The 'fill exactly' prefix and the labelling shadow use the capacities append really produces for that element type. Leg exh stays exhaustive for Queue[int] up to L and re-runs every case up to L-1 with one of the seven other kinds, cycling by case index. "
+            "Constructor edge: NewSize(N) for N in 1025..4100, filled exactly, head at the runtime's growth amount for that element type -1/+0/+1/+2, then Add/Push (about 1 case in 150). The each op also starts a second Each (and a Slice) inside the callback of the first.",
     "assumptions": COMMON_ASSUME + [
         "capacity growth of the shadow follows the runtime's append for the same element type (labels only)",
         "statement coverage of queue.go / slice.Rotate is not recorded by the driver; the shadow classes "
@@ -205,7 +213,8 @@ PROPS["C10"] = {
             "accepted at |n| == Len), so the multiset of elements is conserved. Non-trivial: a same-ring Join at distance >= 2 "
             "and a different-ring Join in one history. Distinct = distinct canonical JSON of the case (64-bit hash), unioned "
             "over shards. "
-            "ELEMENT KINDS (the library is generic, so the property must hold for every instantiation; a change that special-cases a type through a type switch, reflect, unsafe.Sizeof, DeepEqual or fmt is only visible this way): every leg draws an element kind for its container: half of the cases use int; the rest instantiate Stack/Queue/List/Ring with string, int16, an 88-byte comparable struct, *Cell pointers, []byte or any (holding fresh pointers). The model stays in ints and every comparison additionally requires, for the kinds with an identity, that the element returned/listed is the very element that was handed in (pointer / backing array / value+ID), with the zero value of T where the int model has 0. In the list leg half of the Sets through a cursor at a real element (spliced in by construction) supply a NEW element whose value (for pointer-like kinds: whose pointee/contents) equals the one it replaces, and the list must then hold the element that was set; ring.Of must store the given elements themselves and ring.New zero values. Peek/At offsets include the ends of the int range.",
+            "ELEMENT KINDS (the library is generic, so the property must hold for every instantiation; a change that special-cases a type through a type switch, reflect, unsafe.Sizeof, DeepEqual or fmt is only visible this way): every leg draws an element kind for its container: half of the cases use int; the rest instantiate Stack/Queue/List/Ring with string, int16, an 88-byte comparable struct, *Cell pointers, []byte or any (holding fresh pointers). The model stays in ints and every comparison additionally requires, for the kinds with an identity, that the element returned/listed is the very element that was handed in (pointer / backing array / value+ID), with the zero value of T where the int model has 0. In the list leg half of the Sets through a cursor at a real element (spliced in by construction) supply a NEW element whose value (for pointer-like kinds: whose pointee/contents) equals the one it replaces, and the list must then hold the element that was set; ring.Of must store the given elements themselves and ring.New zero values. Peek/At offsets include the ends of the int range. "
+            "The each ops also start a second Each inside the callback of the first.",
     "assumptions": COMMON_ASSUME + [
         "a hang is recognised by the kit's watchdog (case still running after 30 s wall and 20 s CPU; the operations are O(n <= 64))",
         "mlink cursors are value-copyable (the position check walks a copy of the cursor)",
@@ -213,7 +222,8 @@ PROPS["C10"] = {
 }
 
 PROPS["C08"] = {
-    "legs": [rapid("hist", "pcache", "TestC08Hist", 4, 6000, 16, 2000000)],
+    "legs": [rapid("hist", "pcache", "TestC08Hist", 4, 6000, 16, 2000000),
+             plain("longrun", "pcache", "TestC08LongRun", shards={"quick": 1, "thorough": 2})],
     "rule": "limit in 1..12 (biased to >=6); size function absent (unit) or value-dependent (0..4, sometimes exactly the "
             "limit or above it); keys in 0..limit+3 so that evictions happen; unique values; <=60(+limit+6) ops among Put, "
             "putNew (Put of a key that is absent), Get, Has, Remove, Clear, with a spliced fill / touch-a-middle-aged-key / "
@@ -228,7 +238,8 @@ PROPS["C08"] = {
             "(verif/devheap) has reproduced every result of the whole history, and from then on the cache must keep "
             "following that model. NON-TRIVIAL iff some eviction's victim had been re-ordered by an earlier Get or had a "
             "recency neighbour removed by Remove. Distinct = hash of the case JSON. "
-            "ELEMENT KINDS (the library is generic, so the property must hold for every instantiation; a change that special-cases a type through a type switch, reflect, unsafe.Sizeof, DeepEqual or fmt is only visible this way): half of the cases keep Cache[int, Val] with OnEvict then WithSize. The rest draw keys from int / string / 88-byte struct / int16 (key 0 is the key type's zero value) and values from Val / *Cell / any holding *Cell / 88-byte struct / string or []byte sized by cache.Length (limit and sizes x8, the empty value has size 0 and no identity; with no size function the lengths are 8 to 68). For *Cell values of equal size the pointees are deeply equal but the pointers distinct. They also draw the options in either order, given twice (the last wins, the earlier functions must never be called), set on a discarded copy, or absent, and may bracket every step with Has(key). Every element handed back by Get or the callback must be the very element that was Put. putSame re-puts the identical element and putEq a new element of equal size (a new pointer to an equal pointee); both must produce the replaced-entry callback.",
+            "ELEMENT KINDS (the library is generic, so the property must hold for every instantiation; a change that special-cases a type through a type switch, reflect, unsafe.Sizeof, DeepEqual or fmt is only visible this way): half of the cases keep Cache[int, Val] with OnEvict then WithSize. The rest draw keys from int / string / 88-byte struct / int16 (key 0 is the key type's zero value) and values from Val / *Cell / any holding *Cell / 88-byte struct / string or []byte sized by cache.Length (limit and sizes x8, the empty value has size 0 and no identity; with no size function the lengths are 8 to 68). For *Cell values of equal size the pointees are deeply equal but the pointers distinct. They also draw the options in either order, given twice (the last wins, the earlier functions must never be called), set on a discarded copy, or absent, and may bracket every step with Has(key). Every element handed back by Get or the callback must be the very element that was Put. putSame re-puts the identical element and putEq a new element of equal size (a new pointer to an equal pointee); both must produce the replaced-entry callback. "
+            "About 1 case in 300 contains a marathon: 33 000-70 000 replacing Puts or Remove/Put pairs on one or two keys, every step checked. A quarter of the cases start with 'stir and flush': fill exactly, 2-7 Gets/Removes/replacing Puts, then limit+1 fresh keys so that the whole eviction order is observed. leg longrun (thorough: 2^31+1000 and 2^32+1000 successful Gets between Put(1),Put(2) and Put(3), which must evict key 2; quick: 3 million).",
     "assumptions": COMMON_ASSUME + ["a defect whose symptoms coincide with the F2 deviation model on every generated history would be filed under F2"],
 }
 
@@ -260,7 +271,8 @@ PROPS["C09"] = {
             "state after it, a reader that saw 'after' (or started after Clear returned) must never see 'before', and the "
             "callback must report each entry exactly once; evaluations = executions, non-trivial = executions in which a "
             "reader saw both states (counted, not deduplicated: executions are not reproducible). "
-            "Half of the workloads use keys in int / string / 88-byte struct and values in Val / *Cell / string, up to 5 keys. One third of the workloads run on a USER-SUPPLIED Store passed through WithStore (the Store documentation promises that the Cache serialises access to it): a lock-free recency list whose every method, Check included, writes plain counters; in raw executions only the cache's lock orders the calls, so the race detector reports any gap, stamped executions also count the calls inside the store. One fifth are single-goroutine workloads (limit 4-5, unit sizes: fill, Remove, Get, fresh Puts) that are stepped directly against the reference LRU, naming the first wrong call; they never count as non-trivial. Elements are made before and converted after the concurrent phase, so the harness adds no synchronisation. Put sizes include 0 (cache.Length of an empty value).",
+            "Half of the workloads use keys in int / string / 88-byte struct and values in Val / *Cell / string, up to 5 keys. One third of the workloads run on a USER-SUPPLIED Store passed through WithStore (the Store documentation promises that the Cache serialises access to it): a lock-free recency list whose every method, Check included, writes plain counters; in raw executions only the cache's lock orders the calls, so the race detector reports any gap, stamped executions also count the calls inside the store. One fifth are single-goroutine workloads (limit 4-5, unit sizes: fill, Remove, Get, fresh Puts) that are stepped directly against the reference LRU, naming the first wrong call; they never count as non-trivial. Elements are made before and converted after the concurrent phase, so the harness adds no synchronisation. Put sizes include 0 (cache.Length of an empty value). "
+            "leg multi (race build): 2, 4 or 8 caches live at once, each used by ONE goroutine running a C08 history against the sequential reference (every 50th group: 8 tiny caches with thousands of operations each): caches share nothing a caller can see, so every one must behave as it does alone.",
     "assumptions": COMMON_ASSUME + [
         "the Go scheduler is not owned by the harness: interleavings are sampled, not enumerated; a defect that needs one specific preemption inside a few instructions can be missed",
         "the Go race detector reports only races that occur in an execution",
@@ -284,7 +296,8 @@ PROPS["C13"] = {
             "equal snapshots taken after New. NON-TRIVIAL iff the diff has >=2 chunks whose gap is smaller than 2n "
             "(contexts meet or overlap), n>0, and an input has a repeated line. Distinct: by construction (exh) / hash "
             "of the case JSON (rand). "
-            "Memory layouts: the two arguments of New are separate slices, or (where one is a prefix / suffix of the other, which the generator produces on purpose) that very prefix / suffix of the other's memory, or adjacent windows of one buffer.",
+            "Memory layouts: the two arguments of New are separate slices, or (where one is a prefix / suffix of the other, which the generator produces on purpose) that very prefix / suffix of the other's memory, or adjacent windows of one buffer. "
+            "The chunk oracle holds after every step of an arbitrary pipeline over New, AddContext (also repeated: each call adds at most its n lines to what was there), Unify and Diff.Format with any of the three formatters (rendering a diff must leave its chunks as they were); a finished diff stays intact while later diffs are built (vk Retain).",
     "assumptions": COMMON_ASSUME,
     "technique": "small-scope exhaustive enumeration + property-based testing (rapid) with an executable patch-application oracle",
 }
@@ -322,7 +335,8 @@ PROPS["C18"] = {
             "pop on empty and non-empty / constructor alias probes and every op kind.  Distinct = distinct canonical "
             "JSON of the case (64-bit hash), unioned over shards. "
             "Range is called with a restartable sequence or with a single-use one (a second pass yields nothing). "
-            "ELEMENT KINDS (the library is generic, so the property must hold for every instantiation; a change that special-cases a type through a type switch, reflect, unsafe.Sizeof, DeepEqual or fmt is only visible this way): every case names an element kind: half keep Set[int] with the ints as members, the rest (and the whole exhaustive enumeration, once per kind) instantiate Set[T] with int/int16 at the ends of their ranges, strings (20-byte texts, the same with a suffix, short texts), 88-byte structs differing in one word, *Cell pointers (members are identities; neighbouring model values are distinct pointers to deeply equal cells), Set[any] with members of MIXED dynamic types (nil, int, string, *Cell, float64 that print alike) and float64 (integers, halves, -Inf, huge, denormals); model value 0 is the zero value of T in every kind, the reference stays in ints and all checks apply to every kind. For Set[float64] the op nanclear puts 1..3 NaN members into a variable through the built-in map operation and demands only that Clear leaves Len()==0; nothing else is asserted about NaN (a Go map can neither find nor delete a NaN key).",
+            "ELEMENT KINDS (the library is generic, so the property must hold for every instantiation; a change that special-cases a type through a type switch, reflect, unsafe.Sizeof, DeepEqual or fmt is only visible this way): every case names an element kind: half keep Set[int] with the ints as members, the rest (and the whole exhaustive enumeration, once per kind) instantiate Set[T] with int/int16 at the ends of their ranges, strings (20-byte texts, the same with a suffix, short texts), 88-byte structs differing in one word, *Cell pointers (members are identities; neighbouring model values are distinct pointers to deeply equal cells), Set[any] with members of MIXED dynamic types (nil, int, string, *Cell, float64 that print alike) and float64 (integers, halves, -Inf, huge, denormals); model value 0 is the zero value of T in every kind, the reference stays in ints and all checks apply to every kind. For Set[float64] the op nanclear puts 1..3 NaN members into a variable through the built-in map operation and demands only that Clear leaves Len()==0; nothing else is asserted about NaN (a Go map can neither find nor delete a NaN key). "
+            "Element kinds also u8/i8, where model values 0..255 are ALL values of the type; op compl makes one variable the complement of another, so operand pairs that exactly partition the type occur by construction; Intersect takes 0..12 operands (exh: lists of 4..12 equal operands with one odd one at every position); results of Slice/Append/Keys are re-validated after the next case (vk Retain).",
     "assumptions": COMMON_ASSUME + [
         "element kinds as listed in the rule; other instantiations are assumed to behave like one of them",
         "writing to the underlying map directly (documented as allowed) is used for the aliasing probe",
@@ -334,7 +348,9 @@ PROPS["C19"] = {
              plain("stat", "pdistinct", "TestC19Stat", solo=True, shards={"quick": 1, "thorough": 4}),
              plain("reuse", "pdistinct", "TestC19Reuse"),
              plain("huge", "pdistinct", "TestC19Huge"),
-             rapid("nan", "pdistinct", "TestC19NaN", 1, 300, 4, 20000)],
+             rapid("nan", "pdistinct", "TestC19NaN", 1, 300, 4, 20000),
+             plain("long", "pdistinct", "TestC19Long", solo=True),
+             plain("marathon", "pdistinct", "TestC19Marathon", solo=True)],
     "rule": "leg reuse: one counter is run 24 times on the same stream (D distinct values, D > 20*size and not of the form Len*2^k) with Reset between the runs; if all 24 runs return the same Count the mean over repeated runs is stuck away from D (runs through Reset are not independent) - for independent runs and sizes >= 16 the probability of that is below 1e-15; non-trivial = the runs gave at least two different counts. The counter seeds itself from crypto/rand, so no run is bit-reproducible; the deterministic clauses hold "
             "with probability 1 and are checked on every run, the unbiasedness clause is statistical.  leg det: a case "
             "is (size, reps, ops) with ops[i] >= 0 = Add(value) and -1 = Reset; size from {2,3,4,8,16,64} (75%) or "
@@ -370,7 +386,8 @@ PROPS["C19"] = {
             "64-bit hash, unioned over shards); the 12 stat streams of a shard are distinct by construction (size x "
             "near/far).  evaluations counts streams; the class `counter_runs` counts the individual counters. "
             "leg huge: buffers of 2^17+1 .. 2^20 elements: fill with size-1, about 3/4 size, or 1-2 x size distinct values (exact Len/Count checked every 4096 values while below capacity; Count = Len x 2^k at the end), Reset (Len = Count = 0), then a small exact stream; non-trivial iff more than 2^18 values were buffered at the Reset. "
-            "ELEMENT KINDS (the library is generic, so the property must hold for every instantiation; a change that special-cases a type through a type switch, reflect, unsafe.Sizeof, DeepEqual or fmt is only visible this way): about half of the det/reuse/stat cases and the original huge cases use Counter[int] on the stream values; the others instantiate Counter with int (range ends, pairs equal mod 2^32 or equal as float64), string, int16, an 88-byte struct, [64]byte, [512]byte, *Cell (nil; distinct pointers with deeply equal pointees are distinct values), any (nil, *Cell, int/int32/string of the same text) or float64 (+0/-0 are one value; a NaN is buffered only before a Reset, after which Len = Count = 0), every stream value mapped one-to-one to an element and value 0 to the zero value. About 10% of det cases and several huge cases use buffer sizes no stream can fill (2^16 .. 2^32+100, 3<<32, 2^52, 2^62, MaxInt): the counter must stay exact throughout. The huge leg also keeps counters of 88-, 64-, 512- and 16-byte elements exact with more than 4, 16 and 64 MiB of elements buffered, and all 65536 int16 values; non-trivial (huge) iff more than 2^18 values or more than 4 MiB of elements were buffered. leg nan: Counter[float64] of size 2..100 fed up to 4 x size values, NaNs among them: asserted is only that every Add returns (kit watchdog) and that Reset leaves Len = Count = 0 (regression of F8b).",
+            "ELEMENT KINDS (the library is generic, so the property must hold for every instantiation; a change that special-cases a type through a type switch, reflect, unsafe.Sizeof, DeepEqual or fmt is only visible this way): about half of the det/reuse/stat cases and the original huge cases use Counter[int] on the stream values; the others instantiate Counter with int (range ends, pairs equal mod 2^32 or equal as float64), string, int16, an 88-byte struct, [64]byte, [512]byte, *Cell (nil; distinct pointers with deeply equal pointees are distinct values), any (nil, *Cell, int/int32/string of the same text) or float64 (+0/-0 are one value; a NaN is buffered only before a Reset, after which Len = Count = 0), every stream value mapped one-to-one to an element and value 0 to the zero value. About 10% of det cases and several huge cases use buffer sizes no stream can fill (2^16 .. 2^32+100, 3<<32, 2^52, 2^62, MaxInt): the counter must stay exact throughout. The huge leg also keeps counters of 88-, 64-, 512- and 16-byte elements exact with more than 4, 16 and 64 MiB of elements buffered, and all 65536 int16 values; non-trivial (huge) iff more than 2^18 values or more than 4 MiB of elements were buffered. leg nan: Counter[float64] of size 2..100 fed up to 4 x size values, NaNs among them: asserted is only that every Add returns (kit watchdog) and that Reset leaves Len = Count = 0 (regression of F8b). "
+            "leg long: R independent counters of size 3..8 are fed 2^19..2^21 distinct values (16..20 eviction passes); the deterministic clauses are checked every 1024 Adds, and the mean Count must exceed T*n with T = 1 - sqrt(2c*ln(1e10)/R), c = E[Count^2]/n^2 from the exact law of the algorithm (a proved lower-tail bound for sums of non-negative variables: false-alarm probability <= 1e-10 per case). leg marathon: W parallel counters of size 2 or 3 fed 0,1,2,... with Len <= size and 'Count is Len times a non-decreasing power of two' checked every 65536 Adds until a multiplier >= 2^24 (quick) / 2^32 (thorough: about 10^9 Adds each on 16 counters) is seen.",
     "assumptions": COMMON_ASSUME + [
         "crypto/rand and math/rand/v2 ChaCha8 deliver independent uniform bits (the statistical clause is a statement about the algorithm, not about the entropy source)",
         "the false-alarm bound of the statistical leg for buffer sizes below 8 rests on simulation of the Student statistic out to the 1e-5 level and a normal-tail extrapolation with a safety factor of about 2 in standard deviations; it is not a proved bound",
@@ -380,6 +397,7 @@ PROPS["C19"] = {
 
 PROPS["C20"] = {
     "legs": [plain("mbits", "pbytes", "TestC20Bits", solo=True),
+             rapid("mbitsval", "pbytes", "TestC20BitsValues", 2, 20000, 8, 1000000),
              plain("trunc", "pbytes", "TestC20Trunc"),
              plain("natural", "pbytes", "TestC20Natural", solo=True),
              rapid("naturalrand", "pbytes", "TestC20NaturalRand", 4, 50000, 16, 4000000)],
@@ -417,7 +435,8 @@ PROPS["C20"] = {
             "of the triple; a string with a run of more than 18 significant digits is outside the quantifier and "
             "skipped (the generator never produces one).  Distinct: mbits/trunc/natural are distinct by construction "
             "(seeded random extras are de-duplicated); naturalrand = distinct canonical JSON (64-bit hash) unioned "
-            "over shards.",
+            "over shards. "
+            "leg mbitsval (rapid): groups of 2/4/8 eight-byte words whose values cancel under addition modulo 2^64 or under xor (or are arbitrary), behind 0..80 zero bytes, at all 8 alignments, ragged lengths: LeadingZeroes/TrailingZeroes/Zero against the byte-by-byte definitions.",
     "assumptions": COMMON_ASSUME + [
         "amd64: unaligned 64-bit loads/stores are legal; an out-of-slice READ is detected only when it changes the result (both guard values are tried), an out-of-slice WRITE only within the 8..15 guard bytes on each side",
         "int is 64 bits; digit runs are limited to 17 significant digits in generated inputs",
@@ -453,7 +472,8 @@ PROPS["C14"] = {
             "exposed case must parse to exactly the original with those sides collapsed and re-render to the rendering of "
             "that collapsed patch. NON-TRIVIAL iff the diff is non-empty and has an empty range, a one-line range or a "
             "line that is empty or starts with one of - + < > @ space \\ * ! d or a digit (git leg: >=2 file sections). "
-            "Distinct: by construction (exh), hash of the case JSON (rand, git), distinct (L,R,n) (gnupatch).",
+            "Distinct: by construction (exh), hash of the case JSON (rand, git), distinct (L,R,n) (gnupatch). "
+            "Every reader call stands for itself: 40% of the rand/git cases first parse a malformed variant of the text (9 shapes x 8 stray lines; outcome ignored) directly before the real parse, and parsed patches are re-validated after the next case (vk Retain). Header names include complete quoted literals (\"x\", `x`, 'a').",
     "assumptions": COMMON_ASSUME + ["lines contain no newline and no carriage return", "GNU patch 2.7.6 is the external differential oracle; when it is absent leg gnupatch is skipped and says so"],
     "technique": "small-scope exhaustive enumeration + property-based testing (rapid): round-trip, reference appliers, GNU patch differential",
 }
@@ -476,13 +496,15 @@ PROPS["C15"] = {
             "`set -- <Quote(s)>; printf '%s\\0' \"$#\" \"$@\"` for every NUL-free input of leg exh plus generated longer "
             "words, 4000 words per shell invocation; the first discrepancy of a batch is confirmed by running that word "
             "alone. NON-TRIVIAL iff a string is empty, has a non-ASCII byte, or has a single quote adjacent to a "
-            "must-quote character. Distinct: by construction (exh, shells: distinct strings), hash of the case JSON (lists).",
+            "must-quote character. Distinct: by construction (exh, shells: distinct strings), hash of the case JSON (lists). "
+            "Lists also contain runs of 2-5 adjacent identical elements of exact lengths around 8/16/32/64/128/256 bytes; every string returned by Quote, Join and Split is kept with a copy taken at once and re-compared after other calls in the same case and after the next case (vk Retain).",
     "assumptions": COMMON_ASSUME + ["dash and bash implement POSIX quoting for the generated words (brace expansion, a bash extension, is switched off with +B); when neither shell exists leg shells is skipped and says so", "NUL-containing strings are excluded from the real-shell oracle only"],
     "technique": "small-scope exhaustive enumeration + property-based testing (rapid): round-trip, independent POSIX scanner, differential against real shells",
 }
 
 PROPS["C16"] = {
     "legs": [plain("exh", "pshell", "TestC16Exhaustive", solo=True),
+             plain("conc", "pshell", "TestC16Conc"),
              rapid("rand", "pshell", "TestC16Rand", 4, 2500, 16, 100000),
              plain("shells", "pshell", "TestC16Shells", solo=True),
              fuzz("fuzz", "pshell", "FuzzSplit", 60)],
@@ -501,7 +523,9 @@ PROPS["C16"] = {
             "EVERY token index j Rest() after j tokens returns exactly the reference's unconsumed suffix and Next is false "
             "afterwards, and a scanner reused through Reset behaves as a fresh one. NON-TRIVIAL iff the input drives >=3 "
             "distinct modes of the reference (word, escape, single, double, escape-in-double) and ends a token otherwise "
-            "than by a blank right after a plain character. Distinct: by construction (exh, shells), hash of the case JSON (rand).",
+            "than by a blank right after a plain character. Distinct: by construction (exh, shells), hash of the case JSON (rand). "
+            "About 1 case in 400 pads the input to 0.5-2 MiB (reference tokenizer vs Split and Scanner.Split incl. the ok / Complete flag); source readers: the chunked reader, strings.Reader, bytes.Buffer, bufio.Reader of 16 / 4096 / 65536 bytes, LimitReader. "
+            "leg conc: 8 goroutines each tokenize an escape-heavy input of their own (Split, a reused Scanner, a new Scanner) for a bounded number of iterations and must keep obtaining the reference tokenizer's fields and flag; leg rand draws escape-heavy inputs in one case of seven, so that the side-by-side mode overlaps different escapes.",
     "assumptions": COMMON_ASSUME + ["the real-shell comparison is restricted to the statement's domain: complete inputs without unquoted newlines over the tokenizer's classes"],
     "technique": "small-scope exhaustive enumeration + property-based testing (rapid): differential against an independent reference tokenizer and real shells; reader fragmentation",
 }
@@ -533,7 +557,8 @@ PROPS["C11"] = {
             "- the ambiguous alignments. Distinct = distinct by construction (exh) / distinct canonical JSON of the pair "
             "(rand, 64-bit hash, unioned over shards). "
             "leg big (rapid): lhs = 0..n-1 (optionally mod 2/7/100/1000) for n in {1100, 2050, 4097, 4100, 4200, 5000}, rhs = lhs with up to 6 deletions and 6 insertions (one of them near the start), either role; the same validity / span / canonical-form checks, minimality against a two-row LCS-length DP; non-trivial iff the input has repeats. "
-            "ELEMENT KINDS: half of the cases (random legs) and half of the indices (exhaustive legs, dealt by a hash of the case index) keep int elements; the others instantiate the functions with string, int16, an 88-byte struct, *Cell pointers, interface elements holding pointers, float64 (zeros of either sign, which are == and must be treated as equal), a word-table string kind containing 32-bit checksum-collision pairs (FNV-1, FNV-1a, Adler-32) and, optionally, strings that share storage as prefixes of one another, and []byte for the ...Func variants. Elements carry an identity besides their value, so inputs with the same values but different elements (distinct pointers to deeply equal pointees) are different inputs for ==, and every identity/aliasing check runs on the instantiated slices.",
+            "ELEMENT KINDS: half of the cases (random legs) and half of the indices (exhaustive legs, dealt by a hash of the case index) keep int elements; the others instantiate the functions with string, int16, an 88-byte struct, *Cell pointers, interface elements holding pointers, float64 (zeros of either sign, which are == and must be treated as equal), a word-table string kind containing 32-bit checksum-collision pairs (FNV-1, FNV-1a, Adler-32) and, optionally, strings that share storage as prefixes of one another, and []byte for the ...Func variants. Elements carry an identity besides their value, so inputs with the same values but different elements (distinct pointers to deeply equal pointees) are different inputs for ==, and every identity/aliasing check runs on the instantiated slices. "
+            "One rand case in four is followed by one or two rounds that rewrite lhs or rhs IN PLACE (same arrays, same lengths) and diff again under the full oracle; one in eight is followed by a second input pair, after which every earlier script is compared with a header copy taken when it was returned (also after the next case, vk Retain). One rand case in ten has lengths whose sum or product, or both lengths, sit at or next to 64, 100, 128, 200, 256, 512, 1000, 1024.",
     "assumptions": COMMON_ASSUME + ["element kinds as listed in the rule; EditScript is generic in T but its control flow "
                                     "does not depend on T"],
 }
@@ -572,7 +597,8 @@ PROPS["C12"] = {
             "as a modified input. NON-TRIVIAL iff the pair has >= 2 distinct longest "
             "common subsequences (as sequences of classes). Distinct = distinct by construction (exhaustive legs) / "
             "distinct canonical JSON of the case (rapid legs, 64-bit hash, unioned over shards). "
-            "ELEMENT KINDS: half of the cases (random legs) and half of the indices (exhaustive legs, dealt by a hash of the case index) keep int elements; the others instantiate the functions with string, int16, an 88-byte struct, *Cell pointers, interface elements holding pointers, float64 (zeros of either sign, which are == and must be treated as equal), a word-table string kind containing 32-bit checksum-collision pairs (FNV-1, FNV-1a, Adler-32) and, optionally, strings that share storage as prefixes of one another, and []byte for the ...Func variants. Elements carry an identity besides their value, so inputs with the same values but different elements (distinct pointers to deeply equal pointees) are different inputs for ==, and every identity/aliasing check runs on the instantiated slices. LIS/LNDS natural order also runs on string, int16 and float64 stretched over the kind's whole range; with NaNs in a float64 input only this is asserted: no panic, input unchanged, the result is a bitwise subsequence sorted under cmp.Compare, with a length between the optimum of the non-NaN elements and the optimum under cmp.Compare.",
+            "ELEMENT KINDS: half of the cases (random legs) and half of the indices (exhaustive legs, dealt by a hash of the case index) keep int elements; the others instantiate the functions with string, int16, an 88-byte struct, *Cell pointers, interface elements holding pointers, float64 (zeros of either sign, which are == and must be treated as equal), a word-table string kind containing 32-bit checksum-collision pairs (FNV-1, FNV-1a, Adler-32) and, optionally, strings that share storage as prefixes of one another, and []byte for the ...Func variants. Elements carry an identity besides their value, so inputs with the same values but different elements (distinct pointers to deeply equal pointees) are different inputs for ==, and every identity/aliasing check runs on the instantiated slices. LIS/LNDS natural order also runs on string, int16 and float64 stretched over the kind's whole range; with NaNs in a float64 input only this is asserted: no panic, input unchanged, the result is a bitwise subsequence sorted under cmp.Compare, with a length between the optimum of the non-NaN elements and the optimum under cmp.Compare. "
+            "lcsrand draws the same round-number lengths in one case in six; lisrand has a shape 'non-decreasing run of exactly 2^k (32..256, rarely 512/1024, +-1) elements, then a strict new minimum, then a run building on it', in every comparison. Returned LIS/LNDS/LCS slices are compared with frozen copies after the later call of the case and after the next case.",
     "assumptions": COMMON_ASSUME + ["comparison functions are total preorders on ints (natural, reversed, v>>1); the "
                                     "equality passed to LCSFunc is an equivalence relation"],
 }
@@ -606,10 +632,21 @@ PROPS["C17"] = {
             "max-1, no rows, or a ragged column), the slice is empty, gcd(k, n) > 1 for Rotate, and for Partition: "
             "empty / all kept / none kept / at least one kept element behind a dropped one (a swap is needed). Distinct "
             "= distinct by construction (exh) / distinct canonical JSON of the call (rand). "
-            "ELEMENT KINDS: the same calls are made with string, int16, 1-byte, 88-byte struct, pointer, interface, float64 and []byte elements (kinds dealt by case index / drawn for half of the random cases); Partition additionally gets equal-looking but distinguishable elements (+0/-0 with a sign predicate, distinct pointers to deeply equal pointees with an identity predicate) and must still return exactly the elements the predicate accepts. Rotate/At/PtrAt arguments include math.MinInt/MaxInt.",
+            "ELEMENT KINDS: the same calls are made with string, int16, 1-byte, 88-byte struct, pointer, interface, float64 and []byte elements (kinds dealt by case index / drawn for half of the random cases); Partition additionally gets equal-looking but distinguishable elements (+0/-0 with a sign predicate, distinct pointers to deeply equal pointees with an identity predicate) and must still return exactly the elements the predicate accepts. Rotate/At/PtrAt arguments include math.MinInt/MaxInt. "
+            "About one rand case in 4000 is a Rotate of an int slice of 2^20-1 .. 2^22+135 elements checked position by position in O(n), three in four of them directly after a Rotate of m = a*b elements by k with gcd(k, m) > 1, the long slice having 2^21+m or 2^22+m elements and rotated by k or k+-1; a quarter of the small Rotates are preceded by a Rotate of another slice by the same k. Chunks/Batches results are re-checked after the next case.",
     "assumptions": COMMON_ASSUME + ["element kinds as listed in the rule; Head/Tail/Stripe are only called with non-negative arguments "
                                     "(negative ones are not documented)"],
 }
 
 # Properties deliberately not claimed (reason shown in MANIFEST.not_applicable).
 NOT_APPLICABLE = {}
+
+KIT_MODES = (" KIT MODES (every rapid leg): besides its own run, every 8th case is also run on 4 goroutines at once, each on its "
+             "own instances (every 16th together with the three previous cases); every 4th case alternates operation by "
+             "operation with the previous case in one thread of control (coroutines: per-P state such as a sync.Pool slot is "
+             "shared); results that interpreters keep (vk Retain) are re-validated after the next case. Instances of a "
+             "container share nothing a caller can see, so all of these must pass; a failure is saved with its partner "
+             "case(s) and the replay re-enacts the mode.")
+for _p in PROPS.values():
+    if any(l.get("kind") == "rapid" for l in _p["legs"]):
+        _p["rule"] += KIT_MODES
